@@ -1345,6 +1345,50 @@ theorem restart_after_recreate (es ns : List Event) (db : Nat) (a : Assignment) 
     obtain ⟨l, k1, k2, k3⟩ := hso.leader_ok hon
     exact ⟨rs, l, mem_of_lookup a sid rs hrs, k1, k2, k3⟩
 
+/-- drop + re-create, the failure side: after any history, a drop of `db`, a new payload `a` for the same name and
+any events that do not name `db`'s assignment, every shard `LeadersOnNode(id)` lists under `db` — what
+`onNodeFailure` is about to re-elect — is a shard of `a` with `id`, alive so far, among its replicas in `a`;
+and it lists every shard of `db` whose reported leader is `id` -/
+theorem leaders_after_recreate (es ns : List Event) (db : Nat) (a : Assignment) (id : Nat)
+    (hw : ∀ e ∈ es, WellFormed e) (hwn : ∀ e ∈ ns, WellFormed e) (ha : (Map.keys a).Nodup)
+    (hns : ∀ e ∈ ns, ¬ NamesAsg db e) :
+    let st := run St.init (es ++ [.dropDb db, .assignChanged db a] ++ ns)
+    (∀ sid, sid ∈ (Map.lookup (leadersOnNode st.shards id) db).getD [] →
+      ∃ rs, (sid, rs) ∈ a ∧ id ∈ rs ∧ id ∈ st.live) ∧
+    (∀ ss sid s, Map.lookup st.shards db = some ss → Map.lookup ss sid = some s → s.leader = (id : Int) →
+      sid ∈ (Map.lookup (leadersOnNode st.shards id) db).getD []) := by
+  intro st
+  have hw' : ∀ e ∈ es ++ [Event.dropDb db, Event.assignChanged db a] ++ ns, WellFormed e := by
+    intro e he
+    simp only [List.mem_append, List.mem_cons, List.not_mem_nil, or_false] at he
+    rcases he with (h | h | h) | h
+    · exact hw e h
+    · subst h; trivial
+    · subst h; exact ha
+    · exact hwn e h
+  have hinv : Inv st := inv_reachable _ hw'
+  have hheld : Map.lookup st.asg db = some a := by
+    rw [(held_assignment_is_database_history _ db).1]
+    exact dbView_after_recreate db a es ns hns
+  refine ⟨?_, ?_⟩
+  · intro sid hsid
+    obtain ⟨ss, s, hss, hin, hl⟩ := ((leadersOnNode_spec st.shards id hinv.shards_keys db sid).1).mp hsid
+    obtain ⟨a', ha', hok⟩ := hinv.db_ok db ss hss
+    rw [hheld] at ha'; cases ha'
+    have hs := lookup_of_mem ss sid s hok.st_keys hin
+    obtain ⟨rs, hrs, hso⟩ := hok.shard_ok sid s hs
+    by_cases hon : s.state = stOnline
+    · obtain ⟨l, k1, k2, k3⟩ := hso.leader_ok hon
+      have : l = id := by rw [k1] at hl; exact Int.ofNat.inj hl
+      subst this
+      exact ⟨rs, mem_of_lookup a sid rs hrs, k3, k2⟩
+    · have := (hso.offline hon).2
+      rw [this] at hl
+      omega
+  · intro ss sid s hss hs hl
+    exact ((leadersOnNode_spec st.shards id hinv.shards_keys db sid).1).mpr
+      ⟨ss, s, hss, mem_of_lookup ss sid s hs, hl⟩
+
 /-- no hidden derived state: EVERY field (exported or not) of the manager, of the storage-cluster controller and of
 `models.ShardAssignment` — the model's `St` is `storage.state` (live / asg / shards, see `tie_published_shape` for
 `models.StorageState`'s own fields) plus `databases`; `shardAssignments` is written by the assignment / drop handlers
